@@ -48,6 +48,7 @@ class Tracer:
         if body is None or depth > MAX_DEPTH or fid in self.stack:
             return None
         self.stack.append(fid)
+        prev_it = getattr(self, "cur_it", None)
         try:
             out = []
             returns_result = (fn.get("output_s") or fn.get("output") or "").startswith("core::result::Result<") or "Result<" in str(fn.get("output_s") or fn.get("output") or "")
@@ -82,6 +83,7 @@ class Tracer:
             return uniq
         finally:
             self.stack.pop()
+            self.cur_it = prev_it          # events of the caller created after this call belong to the caller's interpreter
 
     def path_ok(self, body, events, st, it):
         """the path returns a success value: the last definition of the return place is not an Err / from_residual"""
